@@ -37,9 +37,40 @@ class Plan:
         return f"Plan({self.kind}@{self.at},{self.arg})"
 
 
+ACTIVE: list["SimFS"] = []
+
+
+def cleanup_all() -> None:
+    """Safety net (called at the end of every run): no scratch directory outlives its run."""
+    for fs in list(ACTIVE):
+        fs.cleanup()
+
+
+def remove_stale(max_age_s: float = 7200.0) -> int:
+    """Remove scratch directories left behind by killed check processes."""
+    import time
+    n = 0
+    for base in ("/dev/shm", tempfile.gettempdir()):
+        try:
+            names = os.listdir(base)
+        except OSError:
+            continue
+        for name in names:
+            p = os.path.join(base, name)
+            if name.startswith("icg-simfs-") and os.path.isdir(p):
+                try:
+                    if time.time() - os.path.getmtime(p) > max_age_s:
+                        shutil.rmtree(p, ignore_errors=True)
+                        n += 1
+                except OSError:
+                    pass
+    return n
+
+
 class SimFS:
     def __init__(self, sim: Sim, buffer_size: int = -1, write_through: bool = False) -> None:
         self.sim = sim
+        ACTIVE.append(self)
         base = "/dev/shm" if os.path.isdir("/dev/shm") and os.access("/dev/shm", os.W_OK) else tempfile.gettempdir()
         self.root = os.path.realpath(tempfile.mkdtemp(prefix="icg-simfs-", dir=base))
         self.buffer_size = buffer_size
@@ -73,6 +104,8 @@ class SimFS:
     def cleanup(self) -> None:
         self.uninstall()
         shutil.rmtree(self.root, ignore_errors=True)
+        if self in ACTIVE:
+            ACTIVE.remove(self)
 
     def under(self, path: Any) -> str | None:
         if isinstance(path, int):
